@@ -109,17 +109,14 @@ def clauses(c, H):
         for it in sg.iters:
             c.reach(f"fb-iteration-{sg.mode}")
             snap = it.snapshot
-            calls = {}
-            rets = {}
-            raised = set()
+            outcomes = {}  # site -> list of ("ret", value) | ("raise",) in call order
             order = []
             for e in it.events:
                 if e[0] == "cb" and ".fb_" in e[1]:
                     order.append(e[1])
+                    outcomes.setdefault(e[1], []).append(("raise",))  # until a value is returned
                 elif e[0] == "fbret":
-                    rets.setdefault(e[1], []).append(e[2])
-                elif e[0] == "raise":
-                    raised.add(e[1])
+                    outcomes[e[1]][-1] = ("ret", e[2])
             for s in FB + ([OVERRIDE] if layout == "R2" else []):
                 n = order.count(s["site"])
                 exp_n = 2 if (layout == "R2" and s["owner"] == "c1" and s["meth"] != "get_angle") else 1
@@ -130,25 +127,22 @@ def clauses(c, H):
                 site = s["site"]
                 k = seen.get(site, 0)
                 seen[site] = k + 1
-            idx = {}
             for s in specs:
                 site = s["site"]
-                vals = rets.get(site, [])
-                if s.get("inherited"):
-                    j = 1
-                else:
-                    j = 0
+                outs = outcomes.get(site, [])
+                j = 1 if s.get("inherited") else 0
                 key = s["nt"]
-                if site in raised:
+                if j >= len(outs):
+                    continue
+                if outs[j][0] == "raise":
                     c.reach("raising-getter")
                     c.prove("C11.raise entry-unchanged", _same(snap.get(key, "<absent>"), last.get(key, "<absent>")),
                             info=dict(key=key, mode=sg.mode))
                     continue
-                if j < len(vals):
-                    c.reach("published")
-                    c.prove("C11.value entry-holds-value-of-this-iteration", _same(snap.get(key, "<absent>"), vals[j]),
-                            info=dict(key=key, mode=sg.mode, got=str(snap.get(key, "<absent>"))[:80]))
-                    last[key] = vals[j]
+                c.reach("published")
+                c.prove("C11.value entry-holds-value-of-this-iteration", _same(snap.get(key, "<absent>"), outs[j][1]),
+                        info=dict(key=key, mode=sg.mode, got=str(snap.get(key, "<absent>"))[:80]))
+                last[key] = outs[j][1]
     # topic types of hinted getters
     for s in specs:
         if s["topic"] is not None:
@@ -176,7 +170,10 @@ class C11(LoopSpec):
                           fault_sites=["robot.teleopPeriodic", "c1.execute", "auto.on_iteration", "robot.disabledPeriodic", "robot.testPeriodic"])]
         return [mkjob("R1", 5, True, fms=True, nt_snapshot=True), mkjob("R2", 4, True, fms=True, nt_snapshot=True),
                 mkjob("R3", 5, False, fms=True, nt_snapshot=True),
-                mkjob("R1", 4, True, fms=True, nt_snapshot=True, faults=2, fault_sites=fs, fault_patterns=["first", "later", "always"])]
+                mkjob("R1", 4, True, fms=True, nt_snapshot=True, faults=1, fault_sites=fs, fault_patterns=["first", "later", "always"]),
+                mkjob("R2", 3, True, fms=True, nt_snapshot=True, faults=2, fault_sites=fs[:4], fault_patterns=["later", "always"]),
+                mkjob("R1", 4, True, fms=True, nt_snapshot=True, faults=1, use_teleop_in_autonomous=True, fault_patterns=["always", "first"],
+                      fault_sites=["robot.teleopPeriodic", "c1.execute", "auto.on_iteration", "robot.disabledPeriodic", "robot.testPeriodic", "robot.robotPeriodic"])]
 
     def reach_required(self, tier):
         return ["fb-iteration-teleop", "fb-iteration-auto", "fb-iteration-disabled", "fb-iteration-test", "published",
